@@ -253,7 +253,52 @@ def _pad_to(rng, parts, case, target):
     parts.append({"t": "pad", "c": c, "n": need})
 
 
+def _mb_samples():
+    out = {}
+    for enc, text in (("shift_jis", "\u3042\u3044"), ("euc-jp", "\u3042\u3044"), ("gbk", "\u4f60\u597d"), ("big5", "\u4f60\u597d"),
+                      ("euc-kr", "\uac00\ub098"), ("gb18030", "\u4f60\u1234"), ("iso-2022-jp", "\u3042\u3044"),
+                      ("utf-8", "\u3042\U0001f600"), ("windows-1252", "\xe9\xe8")):
+        out[enc] = webencodings.lookup(enc).codec_info.encode(text, "strict")[0]
+    return out
+
+
+CJK = _mb_samples()
+
+
+def gen_boundary_doc(rng):
+    """A document in a multi-byte encoding with a CR LF pair (or a multi-byte
+    character) straddling a decoder read boundary of the shipped chunk size
+    (bytes k*10240-1 / k*10240)."""
+    enc = rng.choice(sorted(CJK))
+    case = {"prop": PROP, "bom": None, "torn": 0,
+            "args": {"override": None, "transport": None, "parent": None, "likely": None, "default": None}}
+    how = rng.choice(["meta", "meta", "override", "transport", "likely", "latemeta"])
+    parts = [{"t": "fill", "s": "<!DOCTYPE html>"}]
+    if how == "meta":
+        parts.append({"t": "decl", "form": "charset", "place": "plain", "label": enc})
+    elif how == "latemeta":
+        parts.append({"t": "pad", "c": "<!--", "n": rng.randint(1030, 1200)})
+        parts.append({"t": "decl", "form": "charset", "place": "plain", "label": enc})
+    else:
+        case["args"][how] = enc
+    parts.append({"t": "fill", "s": "<pre>"})
+    mb = CJK[enc]
+    target = rng.choice([10240, 10240, 20480]) + rng.choice([-1, -1, -1, 0, -2, 1])
+    payload, _bl, _d = build(dict(case, parts=parts))
+    head = mb * rng.randint(1, 3)
+    need = target - len(payload) - len(head)
+    filler = rng.choice([b"a", b"ab ", b"q\n", mb])
+    body = head + filler * max(0, need // len(filler))
+    body += b"z" * max(0, target - len(payload) - len(body))
+    body += rng.choice([b"\r\n", b"\r\n", b"\r\r\n", b"\r", mb, b"\r\n" + mb]) + b"tail</pre><p>" + mb + b"\r\nend"
+    parts.append({"t": "body", "hex": body.hex()})
+    case["parts"] = parts
+    return case
+
+
 def gen_doc(rng):
+    if rng.random() < 0.06:
+        return gen_boundary_doc(rng)
     case = {"prop": PROP, "bom": None, "torn": 0}
     r = rng.random()
     if r < 0.1:
